@@ -45,11 +45,11 @@ def obligations(tier):
                   'surrounding atoms x {plain, ANALYZE, ANALYZE execute true / false}'))
     for wrap in ((0, 2) if quick else (0, 1, 2, 3)):
         obs.append(Ob(id=f'real.dml-forms.wrap{wrap}', module=M2, func='capabilities_ok', params='a: int, b: int, wb: int',
-                      args=f'3, a, 0, b, wb, {wrap}', pre=['0 <= a < 28 and (b == 0 or b == 3 or b == 15) and 0 <= wb < 8'] if quick
-                      else ['0 <= a < 28 and 0 <= b < 28 and 0 <= wb < 8'], timeout=T2, group='real query path',
+                      args=f'3, a, 0, b, wb, {wrap}', pre=['0 <= a < 30 and (b == 0 or b == 3 or b == 15) and 0 <= wb < 8'] if quick
+                      else ['0 <= a < 30 and 0 <= b < 30 and 0 <= wb < 8'], timeout=T2, group='real query path',
                       bound='8 INSERT / UPDATE / DELETE / FOR-INSERT forms built around every atom'))
     obs.append(Ob(id='real.read-only', module=M2, func='capabilities_ok', params='a: int, wa: int, wrap: int',
-                  args='0, a, wa, 0, 0, wrap', pre=['0 <= a < 28 and 0 <= wa < 18 and 0 <= wrap < 4'], timeout=T2, group='real query path',
+                  args='0, a, wa, 0, 0, wrap', pre=['0 <= a < 30 and 0 <= wa < 18 and 0 <= wrap < 4'], timeout=T2, group='real query path',
                   bound='every wrapped atom (read-only): no MODIFICATIONS reported, plain and under ANALYZE'))
     obs.append(Ob(id='twin.real-dml', module=M2, func='twin_dml', params='a: int', post='not _', expect='cex',
                   pre=['0 <= a < 14'], timeout=120, group='twin'))
